@@ -12,6 +12,9 @@ pub type BlockRange = RangeInclusive<u64>;
 // ---- assumed specifications of std functions (A-std; cross-checked by Kani harnesses) ----
 pub assume_specification<T> [bool::then_some] (b: bool, t: T) -> (r: Option<T>)
     ensures r == (if b { Some(t) } else { None::<T> });
+pub assume_specification<T, F: FnOnce(T) -> bool> [Option::<T>::is_some_and] (o: Option<T>, f: F) -> (r: bool)
+    requires o.is_some() ==> f.requires((o.unwrap(),))
+    ensures o.is_none() ==> !r, o.is_some() ==> f.ensures((o.unwrap(),), r);
 pub assume_specification<Idx> [std::ops::RangeInclusive::<Idx>::start] (r: &RangeInclusive<Idx>) -> (s: &Idx)
     ensures *s == r@.start;
 pub assume_specification<Idx> [std::ops::RangeInclusive::<Idx>::end] (r: &RangeInclusive<Idx>) -> (s: &Idx)
@@ -1326,7 +1329,7 @@ impl BlockRanges {
                 wf_weak_seq(ranges@.subrange(0, __i1 as int)),
                 match prev { Some(p) => __i1 > 0 && *p == ranges@[__i1 - 1], None => __i1 == 0 },
             decreases ranges.len() - __i1
-//@sub E8 "prev.is_some_and(|prev| range.start() <= prev.end())" => "(match prev { Some(prev) => range.start() <= prev.end(), None => false })"
+//@closure "|prev|" => "|prev: &BlockRange| -> (b: bool) ensures b == (range@.start <= prev@.end)"
 //@hint before "return Err(BlockRangesError::UnsortedBlockRanges);"
                 proof {
                     assert(!wf_weak_seq(ranges@)) by {
